@@ -57,6 +57,21 @@ impl<'a> Sink<'a> {
             }
         }
     }
+    /// `n` observations of one signature at once (thread-local aggregation in hot loops).
+    pub fn violation_n(&self, sig: &str, what: &str, witness: Value, n: u64) {
+        let first = {
+            let mut g = self.seen.lock().unwrap();
+            let e = g.entry(sig.to_string()).or_insert(0);
+            let first = *e == 0;
+            *e += n;
+            first
+        };
+        if first {
+            if let Some(r) = self.report {
+                r.violation(sig, what, witness);
+            }
+        }
+    }
     pub fn n_signatures(&self) -> usize {
         self.seen.lock().unwrap().len()
     }
@@ -132,6 +147,9 @@ pub fn fan_out(
 }
 
 pub fn n_threads() -> usize {
+    if let Some(n) = std::env::var("VERIF_THREADS").ok().and_then(|s| s.parse::<usize>().ok()) {
+        return n.clamp(1, 64);
+    }
     std::thread::available_parallelism()
         .map(|n| n.get())
         .unwrap_or(4)
@@ -155,4 +173,14 @@ pub fn hash_of<T: std::hash::Hash>(t: &T) -> u64 {
     let mut h = F(0xcbf2_9ce4_8422_2325);
     t.hash(&mut h);
     std::hash::Hasher::finish(&h)
+}
+
+/// Last-resort guard: a check must never hang. If the process is still alive after `secs`, report a
+/// harness error (never a violation) and exit 2.
+pub fn arm_watchdog(secs: u64) {
+    std::thread::spawn(move || {
+        std::thread::sleep(std::time::Duration::from_secs(secs));
+        eprintln!("INCONCLUSIVE watchdog: check still running after {secs} s, giving up (harness, not a violation)");
+        std::process::exit(2);
+    });
 }
